@@ -85,19 +85,19 @@ CLAIMED = {
         "DESIGN.md §4 C13",
     ),
     "C14": (
-        "Differential stateful testing (query vs execution in the same state): pools and vaults are brought into arbitrary reachable states by generated histories (liquidity changes, donations, pending protocol fees, fee changes, amp ramps in progress), then probed: Simulation followed by the identical swap in the same block on constant-product pairs, two-asset stableswap pairs and the trio (all six directions, native and cw20 offers, optional receivers); SimulateSwapOperations followed by ExecuteSwapOperations over 1..3-hop routes of a three-pair chain; vault Share{n} followed by the withdrawal of n shares. Whenever execution succeeds the quote must have succeeded and be equal in every component; executed amounts are taken from swap attributes that are themselves checked against balance, circulating-supply and fee-ledger deltas.",
+        "Differential stateful testing (query vs execution in the same state): pools and vaults are brought into arbitrary reachable states by generated histories (liquidity changes, donations, pending protocol fees, fee changes, amp ramps in progress), then probed: Simulation followed by the identical swap in the same block on constant-product pairs, two-asset stableswap pairs and the trio (all six directions, native and cw20 offers, optional receivers); SimulateSwapOperations followed by ExecuteSwapOperations over 1..3-hop routes of a three-pair chain; vault Share{n} followed by the withdrawal of n shares. Whenever execution succeeds the quote must have succeeded and be equal in every component; executed amounts are taken from swap attributes that are themselves checked against balance, circulating-supply and fee-ledger deltas. Routes may also revisit a pair (A->B->A[->B]); the mismatch this exposes is the listed finding router-simulation-revisited-pair.",
         "Only 'execution succeeded => quote equal' is judged. Router equality only when the router held none of the route's assets beforehand.",
         "differential property-based testing over generated histories (quote vs execution)",
         "DESIGN.md §4 C14",
     ),
     "C15": (
-        "Four searches: (a) assert_max_spread (package) and (b) both deposit slippage assertions (pair constant-product + stableswap, trio; through the hook) with generated inputs placed on, one and two units around, and far from every threshold, for max_spread / tolerance in {None, 0, 1% -/+ 1e-18, 50% -/+ 1e-18, 1, >1, random}, judged by an exact-rational three-way oracle (forced accept / forced reject / either inside the 18-decimal granularity band); (c) live constant-product and stableswap pairs: every limited swap that succeeds must satisfy the realised bound computed from its actual amounts, and a limited swap that is rejected is re-executed without the limit in the same state - if that lands strictly inside the bound it is a violation; (d) router routes (1..3 hops, receivers with pre-existing balances) with minimum_receive = simulated amount + {-3..3, far}: success => receiver delta >= minimum, delivery >= minimum => not rejected (checked by re-executing without the minimum). (e) live deposits into constant-product pairs with the first asset's amount placed on / around the exact threshold of the ratio test and the assets listed in the pool's or the opposite order, judged by the same three-way reference from the reported reserves. (f) the same live spread rule on the three-asset pool in all six directions.",
+        "Four searches: (a) assert_max_spread (package) and (b) both deposit slippage assertions (pair constant-product + stableswap, trio; through the hook) with generated inputs placed on, one and two units around, and far from every threshold, for max_spread / tolerance in {None, 0, 1% -/+ 1e-18, 50% -/+ 1e-18, 1, >1, random}, judged by an exact-rational three-way oracle (forced accept / forced reject / either inside the 18-decimal granularity band); (c) live constant-product and stableswap pairs: every limited swap that succeeds must satisfy the realised bound computed from its actual amounts, and a limited swap that is rejected is re-executed without the limit in the same state - if that lands strictly inside the bound it is a violation; (d) router routes (1..3 hops, receivers with pre-existing balances) with minimum_receive = simulated amount + {-3..3, far}: success => receiver delta >= minimum, delivery >= minimum => not rejected (checked by re-executing without the minimum). (e) live deposits into constant-product pairs with the first asset's amount placed on / around the exact threshold of the ratio test and the assets listed in the pool's or the opposite order, judged by the same three-way reference from the reported reserves. (f) the same live spread rule on the three-asset pool in all six directions. (g) live deposits with a tolerance into stableswap pairs and the three-asset pool, judged from the LP actually minted; (h) the spread figure reported by the constant-product computation against the independently computed price impact.",
         "Band = Decimal floors at 18 places; belief-price rule judged only where offer/p and 1/p fit the contract's types. Package-level mutations are visible because the harness patches white-whale-std to /repo/packages.",
         "property-based testing with a three-way exact-rational oracle on dense boundary inputs + differential live checks",
         "DESIGN.md §4 C15",
     ),
     "C16": (
-        "Exhaustive matrix enumeration with random payloads: a hand-written table classifies every ExecuteMsg variant of 14 contracts (verified at start-up against the variant names derived from the message schemas, so a new variant cannot be silently missing); every privileged or internal variant x ten caller roles (configured owner, hub owner account, prospective new owner, user, sibling contract, the contract itself, pool factory, vault factory, fee distributor, a registered vault) x {before, after an ownership transfer} is executed against a freshly built full hub as the regression corpus (760 combinations), and random payload details are drawn on top. Unauthorised caller => rejected and full world snapshot (all storage + all balances) unchanged; authorised caller with the canonical payload => accepted; after a transfer the previous owner loses and the new owner gains the rights. A second search runs flash loans whose borrower contract forges the vault's internal Callback(AfterTrade) from inside its own (possibly nested) loan with generated arguments; the borrower's reply handler reports the vault's verdict, which must be 'rejected'. Payloads are caller-aware (NextLoan source_vault in {vault, caller, other} x asset in {registered, unregistered}).",
+        "Exhaustive matrix enumeration with random payloads: a hand-written table classifies every ExecuteMsg variant of 14 contracts (verified at start-up against the variant names derived from the message schemas, so a new variant cannot be silently missing); every privileged or internal variant x ten caller roles (configured owner, hub owner account, prospective new owner, user, sibling contract, the contract itself, pool factory, vault factory, fee distributor, a registered vault) x {before, after an ownership transfer} is executed against a freshly built full hub as the regression corpus (760 combinations), and random payload details are drawn on top. Unauthorised caller => rejected and full world snapshot (all storage + all balances) unchanged; authorised caller with the canonical payload => accepted; after a transfer the previous owner loses and the new owner gains the rights. A second search runs flash loans whose borrower contract forges the vault's internal Callback(AfterTrade) from inside its own (possibly nested) loan with generated arguments; the borrower's reply handler reports the vault's verdict, which must be 'rejected'. Payloads are caller-aware (NextLoan source_vault in {vault, caller, other} x asset in {registered, unregistered}). Unauthorised attempts also carry reshaped payloads (optional fields left out down to the empty update, owner naming the caller).",
         "cw20 token and the test-only distributor mock are outside the table. Router route management is judged with a wasm admin configured. AssertMinimumReceive is judged for effect-freeness. Migrations: only rejection of unauthorised callers.",
         "fault/role enumeration (exhaustive matrix) + property-based payloads, snapshot-diff oracle",
         "DESIGN.md §4 C16",
